@@ -204,7 +204,12 @@ func c19PatchAlt(r *rand.Rand, kind string, alt *[]string) (text string, line in
 					lines = append(lines, "")
 				}
 				// declarations may be indented (blanks, tabs): the column counts the indentation
-				ind := []string{"", "", "  ", "\t", " \t "}[r.Intn(5)]
+				// ... and so does a Go comment in front of a declaration, also one that spells a line directive: the
+				// diagnostic is about the patch file
+				ind := []string{"", "", "  ", "\t", " \t ", "", "", "  ", "\t", "/* note */ ", "/*line zz.go:100:1*/ ", "/*line zz.go:7*/\t"}[r.Intn(12)]
+				if strings.HasPrefix(ml, "#") && strings.HasPrefix(ind, "/*") {
+					ind = "" // a '#' line is a comment of the patch only at the start of its line
+				}
 				lines = append(lines, ind+ml)
 				if i == pos {
 					line, cols = len(lines), []int{col + len(ind)}
